@@ -62,22 +62,7 @@ static void addobs(Res &r, const void *p, size_t n) { r.obs.append((const char *
 FILE *g_devnull = nullptr;
 std::string g_tmpdir;
 
-// open file descriptors of the process (a descriptor left open on a failure path is a leak as well)
-// (descriptors the harness and the sanitizer runtime open lazily themselves - /dev/null for debug(),
-// the sanitizer log - are not counted)
-static int count_fds(std::string *what = nullptr) {
-    int n = 0; DIR *d = opendir("/proc/self/fd"); if (!d) return -1;
-    int self = dirfd(d);
-    while (struct dirent *e = readdir(d)) {
-        if (e->d_name[0] == '.') continue;
-        if (atoi(e->d_name) == self) continue;
-        char path[64], tgt[512]; snprintf(path, sizeof path, "/proc/self/fd/%s", e->d_name);
-        ssize_t k = readlink(path, tgt, sizeof tgt - 1); if (k < 0) continue; tgt[k] = 0;
-        if (!strncmp(tgt, "/dev/null", 9) || strstr(tgt, "/san.") || strstr(tgt, "/san-") || !strncmp(tgt, "pipe:", 5) || !strncmp(tgt, "/dev/pts", 8) || !strncmp(tgt, "/proc/", 6)) continue;
-        n++; if (what) { *what += tgt; *what += " "; }
-    }
-    closedir(d); return n;
-}
+static int count_fds(std::string *what = nullptr) { return count_open_fds(what); }
 struct Cont {
     virtual ~Cont() {}
     virtual const char *kind() = 0;
